@@ -365,7 +365,8 @@ def install(ctx, repo, probes):
     for mode in R.MODES:
         ctx.target("mode/" + mode)
     ctx.target("anchor-24:00", "reentrant-iteration",
-               "single/three-notations", "shifted/r+d", "shifted/d+r",
+               "single/three-notations", "longwalk", "shifted/r+d",
+               "shifted/d+r",
                "shifted/r-d")
     for fmt in (3, 4):
         for kind in ("bounded", "unbounded"):
@@ -465,6 +466,32 @@ def run_case(ctx, repo, case):
                                   len(again), desc))
             else:
                 ctx.cls("reentrant-iteration")
+        elif case["op"] == "longwalk":
+            # an unbounded series has no last point: far along one single
+            # iteration the k-th point is still anchor +- k * interval
+            ctx.ev("longwalk")
+            k = case["count"]
+            last = None
+            n_seen = 0
+            ctx.in_oracle += 1      # (the series log keeps 400 points only)
+            try:
+                for p in rec:
+                    last = p
+                    n_seen += 1
+                    if n_seen >= k:
+                        break
+            finally:
+                ctx.in_oracle -= 1
+            step = recgen._len(desc["dur"]) * (-1 if desc["fmt"] == 4 else 1)
+            want = ctx.case_given_anchor + (k - 1) * step
+            if n_seen != k or R.tp_instant(mode, last) != want:
+                ctx.violation("series.longwalk", "an unbounded recurrence "
+                              "%r yielded %d points when %d were taken; the "
+                              "last one is %r" % (
+                                  desc, n_seen, k,
+                                  None if last is None else R.tp_key(last)))
+            else:
+                ctx.cls("longwalk")
         elif case["op"] == "shifted":
             # a recurrence that comes out of r + d / d + r / r - d is a
             # recurrence like any other: n points, steps, anchor
@@ -588,6 +615,17 @@ def workload(ctx, repo):
             elif (j + ctx.seed) % stride or not ctx.mine(j // stride):
                 continue
             case = {"op": "iterate", "desc": desc}
+            ctx.case = case
+            run_case(ctx, repo, case)
+    if ctx.worker == 0:
+        for fmt, dur in ((3, {"seconds": 1}), (4, {"minutes": 1})):
+            a = gen.tp_from_instant(rng, "gregorian", 730000 * 86400 + 5,
+                                    rep="cal", offset=(0, 0),
+                                    allow_2400=False)
+            desc = {"mode": "gregorian", "fmt": fmt, "reps": None, "dur": dur}
+            desc["start" if fmt == 3 else "end"] = a
+            case = {"op": "longwalk", "desc": desc,
+                    "count": 100003 if fmt == 3 else 100001}
             ctx.case = case
             run_case(ctx, repo, case)
     # the three notations with spellings 26 hours of offset apart (the local
